@@ -9,10 +9,11 @@
 
    Events (times are ranks, see CesiumIter.tla; all fields always present):
      [ev |-> "layout", tid, stored]                      a new trace over this stored content
-     [ev |-> "cmd", c, t, target, b, chunk, view, frame, valid, err]
+     [ev |-> "cmd", c, t, target, b, chunk, view, frame, valid, ok, err]      ok = the call's return value
         c \in open setbounds seekfirst seeklast seekle seekge next prev nextauto prevauto
    An iterator that reported an Error() is `failed` until the next seek: nothing it returns
-   is judged (C10 does not speak about it).  The error itself is a violation (UnexpectedError)
+   is judged (C10 does not speak about it).  Likewise an iterator whose last seek returned
+   false (no domain found) is not positioned and its steps are not judged.  The error itself is a violation (UnexpectedError)
    unless it is the one an automatic step leaves behind when no sample remains in the
    direction of travel (observed behaviour, not a statement of C10).                       *)
 EXTENDS CesiumIter, Json
@@ -51,26 +52,29 @@ SeekRun(c) == IF c = "seekfirst" THEN "first" ELSE IF c = "seeklast" THEN "last"
 TSeek ==
   /\ \E c \in {"seekfirst", "seeklast", "seekle", "seekge"} :
        /\ Cmd(c) /\ Observe
-       /\ last' = "seek" /\ run' = SeekRun(c) /\ acc' = <<>> /\ failed' = (E.err # "")
+       /\ last' = (IF E.ok THEN "seek" ELSE "none") /\ run' = (IF E.ok THEN SeekRun(c) ELSE "off")
+       /\ acc' = <<>> /\ failed' = (E.err # "")
        /\ viol' = V("FrameIsView", FrameIsView)
-                    \cup (IF c = "seekfirst" /\ SeekInBounds THEN V("SeekFirstNoSkip", SeekFirstNoSkip) ELSE {})
-                    \cup (IF c = "seeklast" /\ SeekInBounds THEN V("SeekLastNoSkip", SeekLastNoSkip) ELSE {})
+                    \cup (IF c = "seekfirst" /\ E.ok /\ SeekInBounds THEN V("SeekFirstNoSkip", SeekFirstNoSkip) ELSE {})
+                    \cup (IF c = "seeklast" /\ E.ok /\ SeekInBounds THEN V("SeekLastNoSkip", SeekLastNoSkip) ELSE {})
+                    \cup (IF c \in {"seekfirst", "seeklast"} THEN V("SeekFinds", Read(bounds[1], bounds[2]) # <<>> => E.ok) ELSE {})
                     \cup V("UnexpectedError", E.err = "")
-       /\ drift' = V("SeekInBounds", SeekInBounds)
+       /\ drift' = IF ~E.ok THEN {} ELSE
+                    V("SeekInBounds", SeekInBounds)
                     \cup (IF c = "seekge" THEN V("SeekGEPos", SeekGEPos(E.t)) ELSE {})
                     \cup (IF c = "seekle" THEN V("SeekLEPos", SeekLEPos(E.t)) ELSE {})
                     \cup V("ValidAfterSeek", ~valid')
 
 \* steps of a failed iterator are recorded but not judged
 TFailedStep ==
-  /\ failed
+  /\ failed \/ last = "none"
   /\ \E c \in {"next", "prev", "nextauto", "prevauto"} : Cmd(c)
   /\ Observe
   /\ last' = "none" /\ run' = "off" /\ acc' = <<>> /\ failed' = TRUE
-  /\ viol' = {} /\ drift' = {"StepOfFailedIterator"}
+  /\ viol' = {} /\ drift' = {IF failed THEN "StepOfFailedIterator" ELSE "StepOfUnpositionedIterator"}
 
 TFwd ==
-  /\ ~failed
+  /\ ~failed /\ last # "none"
   /\ \E c \in {"next", "nextauto"} :
        /\ Cmd(c) /\ Observe
        /\ last' = IF c = "next" THEN "fwd" ELSE "afwd"
@@ -95,7 +99,7 @@ TFwd ==
                    \cup V("ValidIffData", ValidIffData)
 
 TBwd ==
-  /\ ~failed
+  /\ ~failed /\ last # "none"
   /\ \E c \in {"prev", "prevauto"} :
        /\ Cmd(c) /\ Observe
        /\ last' = IF c = "prev" THEN "bwd" ELSE "abwd"
